@@ -173,7 +173,7 @@ class Repo:
             if ch:
                 fi.node = fi.raw_node = node
                 self.desugared.append(fi.fq)
-            node, ch = normalize_function(fi.raw_node, self._sig_resolver(fi))
+            node, ch = normalize_function(fi.raw_node, self._sig_resolver(fi), self._list_attrs(fi.cls))
             if ch:
                 fi.node = fi.raw_node = node
                 self.normalized.append(fi.fq)
@@ -196,7 +196,7 @@ class Repo:
             if fi.fq in expanded:
                 # the spliced bodies introduce new aliases / named conditions: normalise again
                 node, _ch = desugar(expanded[fi.fq], self.modules[fi.module].globals_assigned)
-                node, _ch = normalize_function(node, self._sig_resolver(fi))
+                node, _ch = normalize_function(node, self._sig_resolver(fi), self._list_attrs(fi.cls))
                 # spliced helper bodies carry the helper's line numbers: give the function synthetic,
                 # monotone positions (document order) for the rules that order statements, and keep
                 # the real line for messages
@@ -247,6 +247,30 @@ class Repo:
                     changed = True
         for fq in absorbed:
             by_fq[fq].absorbed = True
+
+    def _list_attrs(self, ci):
+        """attributes that every __init__ / reset of the class hierarchy binds to a list display"""
+        if ci is None:
+            return frozenset()
+        if not hasattr(self, '_la_cache'):
+            self._la_cache = {}
+        if ci.fq not in self._la_cache:
+            vals = {}
+            for c in self.mro(ci):
+                for m in ('__init__', 'reset'):
+                    f = c.methods.get(m)
+                    if f is None:
+                        continue
+                    for n in ast.walk(f.raw_node):
+                        if isinstance(n, ast.Assign):
+                            for t in n.targets:
+                                if isinstance(t, ast.Attribute) and isinstance(t.value, ast.Name) and t.value.id == 'self':
+                                    vals.setdefault(t.attr, []).append(n.value)
+            self._la_cache[ci.fq] = frozenset(
+                k for k, vs in vals.items()
+                if all(isinstance(v, (ast.List, ast.ListComp)) or
+                       (isinstance(v, ast.Call) and isinstance(v.func, ast.Name) and v.func.id == 'list') for v in vs))
+        return self._la_cache[ci.fq]
 
     def _sig_resolver(self, fi):
         """call node -> positional parameter names of the callee (receiver excluded), when the callee
